@@ -2,8 +2,6 @@
 package main
 
 import (
-	"runtime/debug"
-	"runtime"
 	"bytes"
 	"crypto/tls"
 	"encoding/binary"
@@ -15,6 +13,8 @@ import (
 	"os"
 	"path/filepath"
 	"regexp"
+	"runtime"
+	"runtime/debug"
 	"strings"
 	"sync/atomic"
 
@@ -62,6 +62,11 @@ var userAgents = func() []string {
 		for _, v := range []string{"", "/", "/1", "/45.0", "/52.0", "/52.0.1-x", "/.", "/45.0.", "/-", "/1e309", "/0x10"} {
 			for _, w := range []string{"", " Windows"} {
 				out = append(out, "Mozilla/5.0 "+b+v+w)
+			}
+			// text in front of the product token whose lower-case form has another byte length: Latin-1 bytes (not
+			// valid UTF-8), the Kelvin sign, the dotted capital I
+			for _, pre := range []string{"\xe9\xe9\xe9\xe9 ", "caf\xe9 ", "\u212a\u212a\u212a\u212a ", "\u0130\u0130\u0130 ", "\u023a\u023a\u023a "} {
+				out = append(out, "Mozilla/5.0 (Windows; "+pre+") "+b+v)
 			}
 		}
 	}
